@@ -294,6 +294,19 @@ def run(ctx, res):
                "checked (score(hi) >= score(lo)) except the standard's own non-monotone v3.0 "
                "environmental C/I/A/CR/IR/AR axes, which are counted separately; "
                "distinct_nontrivial = edges on which the score strictly increases", exhaustive=True)
+    rtasks = []
+    for fam in T.FAMILIES:
+        for lo, hi in core.split_range(ROW_EDGES[ctx.tier][fam], 24):
+            rtasks.append((fam, lo, hi))
+    raccs = core.task_map(_row_edges_task, rtasks)
+    rtot = sweep.merge(raccs)
+    for c in rtot["bad"]:
+        res.add_violation(c)
+    res.coverage["interaction_row_edges"] = {"rows": ROW_EDGES[ctx.tier], "edges": rtot["calls"],
+                                             "slot_comparisons": rtot["cmp"], "strictly_increasing": rtot["nontrivial"]}
+    edges += rtot["calls"]
+    strict += rtot["nontrivial"]
+    nviol += rtot["nbad"]
     res.coverage["transitions"] = edges
     res.coverage["traces_validated_against_impl"] = edges
     res.coverage["distinct_nontrivial"] = strict
@@ -303,6 +316,82 @@ def run(ctx, res):
     res.coverage["bound"] = ("all edges of the complete score tables (v4: 15.1M nodes)"
                              if ctx.thorough else
                              "all edges between nodes of the quick (<=1 free group) spaces")
+
+
+# ------------------------------------------------------------------ edges around interaction rows
+
+def _step_order(fam, m):
+    """Severity order of metric m where the statement claims monotonicity, else None."""
+    if fam == "2":
+        return T.ORDER2.get(m)
+    if fam == "4.0":
+        return T.ORDER4.get(m[1:] if m in T.V4_MODIFIED else m)
+    return T.ORDER3.get(m[1:] if m in T.V3_MODIFIED else m)
+
+
+def _row_slots(fam, m):
+    """Score slots in which a step of metric m must not lower the score."""
+    if fam == "4.0":
+        return (0,)
+    if fam == "2":
+        return (0, 1)
+    base = m[1:] if m in T.V3_MODIFIED else m
+    if fam == "3.0" and base in ("C", "I", "A", "CR", "IR", "AR"):
+        return (0, 1)            # the 3.0 standard's own non-monotone environmental axes
+    return (0, 1, 2)
+
+
+def _row_edges_task(t):
+    """Every single-metric one-step severity increase around the interaction rows lo..hi: vectors
+    in which base, temporal/threat, requirement and (partially) modified metrics vary at once."""
+    fam, lo, hi = t
+    acc = sweep.new_acc()
+    cls = observe.cls_of(fam)
+    doms = spaces._domains(fam)
+    names = [m for m, _ in doms]
+    for k in range(lo, hi):
+        asg = spaces.interaction_row(fam, k, doms)
+        vec = T.spell(fam, asg, [m for m in names if m in asg])
+        try:
+            s_lo = cls(vec).scores()
+        except Exception as e:  # noqa
+            sweep.bad(acc, {"what": "%s(%r): %s: %s" % (T.CLASSNAME[fam], vec, type(e).__name__, e),
+                            "kind": "raise", "input": vec, "family": fam, "signature": {"kind": "raise"}})
+            continue
+        acc["n"] += 1
+        for m, v in asg.items():
+            order = _step_order(fam, m)
+            if not order or v not in order or order.index(v) + 1 >= len(order):
+                continue
+            nv = order[order.index(v) + 1]
+            if nv not in T.METRICS[fam][m]:
+                continue                       # e.g. Safety exists for MSI/MSA only
+            hvec = T.spell(fam, dict(asg, **{m: nv}), [x for x in names if x in asg])
+            try:
+                s_hi = cls(hvec).scores()
+            except Exception as e:  # noqa
+                sweep.bad(acc, {"what": "%s(%r): %s: %s" % (T.CLASSNAME[fam], hvec, type(e).__name__, e),
+                                "kind": "raise", "input": hvec, "family": fam, "signature": {"kind": "raise"}})
+                continue
+            acc["calls"] += 1
+            for slot in _row_slots(fam, m):
+                a, b = s_lo[slot], s_hi[slot]
+                if a is None or b is None:
+                    continue
+                acc["cmp"] += 1
+                if b > a:
+                    acc["nontrivial"] += 1
+                if b < a:
+                    sweep.bad(acc, {
+                        "what": "%s slot %d: %s %s->%s (more severe) lowers the score %.1f -> %.1f at %s" % (
+                            fam, slot, m, v, nv, a, b, vec),
+                        "kind": "edge", "family": fam, "slot": slot, "lo": vec, "hi": hvec,
+                        "input": [vec, hvec], "signature": {"kind": "edge", "family": fam}})
+    return acc
+
+
+ROW_EDGES = {"quick": {"2": 30000, "3.0": 20000, "3.1": 20000, "4.0": 12000},
+             "thorough": {"2": 300000, "3.0": 200000, "3.1": 200000, "4.0": 120000}}
 
 
 def _recheck(case):
@@ -320,10 +409,20 @@ def _spell(tab, asg):
         "/".join("%s:%s" % (m, asg[m]) for m, _, _ in tab.axes)
 
 
+def replay_task(case):
+    return core.replay_func_task(case)
+
+
 def replay(case):
     import cvss
 
     cls = getattr(cvss, T.CLASSNAME[case["family"]])
+    if case.get("kind") == "raise":
+        try:
+            cls(case["input"]).scores()
+        except Exception as e:  # noqa
+            return True, "%s: %s" % (type(e).__name__, e)
+        return False, "accepted"
     lo = cls(case["lo"]).scores()[case["slot"]]
     hi = cls(case["hi"]).scores()[case["slot"]]
     return hi < lo, "score(lo)=%r score(hi)=%r" % (lo, hi)
